@@ -4,12 +4,16 @@ import GeomV.C02.Gen
 (`Gen.lean`, written by `harness/cmd/c02 extract` on every run) ARE the model's definitions the
 theorems of `Proofs.lean` talk about.  Proved by `rfl`: a source change to `pointSubtract`,
 `pointOnSegment` or `rayIntersectsSegment` that is not the model's definition breaks exactly that
-obligation (and the check then searches for a failing input).
+obligation (and the check then searches for a failing input).  Phase 3: `(*Bounds).Empty` and
+`(*Bounds).Overlaps` of bounds.go are regenerated too (box fields are `ERat`, `<=` is `ERat.le`).
 -/
 namespace GeomV.C02
 
 theorem C02_tie_pointSubtract : Gen.pointSubtract = pointSubtract := rfl
 theorem C02_tie_pointOnSegment : Gen.pointOnSegment = pointOnSegment := rfl
 theorem C02_tie_rayIntersectsSegment : Gen.rayIntersectsSegment = rayIntersectsSegment := rfl
+/-- `bounds.go: (*Bounds).Empty` / `(*Bounds).Overlaps` (the per-ring box prefilter's test) -/
+theorem C02_tie_Bounds_Empty : Gen.Bounds_Empty = Bounds.empty := rfl
+theorem C02_tie_Bounds_Overlaps : Gen.Bounds_Overlaps = Bounds.overlaps := rfl
 
 end GeomV.C02
